@@ -186,7 +186,8 @@ class ScenarioManagerSd(ScenarioManager):
         for name, function in model.functions.items():
             new_function = new_mod.function(name, model.fn[name])
 
-        new_mod.points = model.points
+        # every clone gets its own dictionary: changing one scenario's points must not reach its siblings or the base model
+        new_mod.points = dict(model.points)
 
         return new_mod
 
